@@ -3350,6 +3350,23 @@ impl<'a, R: FileManager> FrontendCtx<'a, R> {
             .extract_union(constraint_schema)
             .map_err(|e| self.box_error(&anchor, e))?;
 
+        // `{ [K in keyof T]: ... }` is homomorphic: a property that is optional in T stays optional
+        let mut homomorphic_optional_keys: BTreeSet<String> = BTreeSet::new();
+        if let TsType::TsTypeOperator(TsTypeOperator {
+            op: TsTypeOperatorOp::KeyOf,
+            type_ann,
+            ..
+        }) = constraint
+            && let Ok(source) = self.extract_type(type_ann, file_name.clone())
+            && let Ok(source_obj) = self.extract_object_from_runtype(&source, &anchor)
+        {
+            for (key, v) in source_obj {
+                if let Optionality::Optional(_) = v {
+                    homomorphic_optional_keys.insert(key);
+                }
+            }
+        }
+
         // Handle `[K in string]: V` as Record<string, V>
         // Handle `[K in number]: V` as Record<number, V>
         if values.len() == 1 && (values[0] == Runtype::string() || values[0] == Runtype::number()) {
@@ -3411,7 +3428,12 @@ impl<'a, R: FileManager> FrontendCtx<'a, R> {
             let ty = self.extract_type(type_ann, file_name.clone());
             self.type_application_stack.pop();
             let ty = ty?;
-            vs.insert(key, make_opt(ty));
+            let ty = if homomorphic_optional_keys.contains(&key) {
+                Optionality::Optional(ty)
+            } else {
+                make_opt(ty)
+            };
+            vs.insert(key, ty);
         }
 
         let indexed_properties = if infinite_keys.is_empty() {
